@@ -244,6 +244,25 @@ def model_params(rng, nd, small=False):
             kw["m%d%d" % (i + 1, j + 1)] = m
             ms.append(m)
         per.append((nu, ms, gamma, h))
+    # ties: real models often give several populations the same size, selection or dominance and make migration symmetric; any
+    # subset of those groups tied while the others stay different (a shortcut keyed on some of them must look at all)
+    if nd > 1 and rng.random() < 0.4:
+        tie = {g: bool(rng.random() < 0.6) for g in ("nu", "gamma", "h", "m")}
+        if tie["nu"]:
+            for i in range(nd):
+                kw[nus[i]] = kw[nus[0]]
+        if tie["gamma"]:
+            g0 = kw[gnames[0]] if kw[gnames[0]] != 0 else float(rng.uniform(1, 8))
+            for i in range(nd):
+                kw[gnames[i]] = g0
+        if tie["h"]:
+            for i in range(nd):
+                kw[hnames[i]] = kw[hnames[0]]
+        if tie["m"]:
+            for i in range(nd):
+                for j in range(i + 1, nd):
+                    kw["m%d%d" % (j + 1, i + 1)] = kw["m%d%d" % (i + 1, j + 1)]
+        per = [(kw[nus[i]], [kw["m%d%d" % (i + 1, j + 1)] for j in range(nd) if j != i], kw[gnames[i]], kw[hnames[i]]) for i in range(nd)]
     kw["theta0"] = float(rng.uniform(0.2, 5))
     return kw, per
 
@@ -274,7 +293,9 @@ def run_onestep(spec, rec, Integration, Numerics):
         T = float(dt * rng.choice([1.0, 0.5, 0.999, rng.uniform(0.05, 1)]))
         asfunc = bool(ci % 2) if nd <= 3 else True
         desc = {"nd": nd, "L": L, "T": T, "kw": kw, "asfunc": asfunc, "delj": delj}
-        nontriv = all(len(set(p[1])) == len(p[1]) for p in per)
+        nontriv = all(len(set(p[1])) == len(p[1]) for p in per) or nd == 2
+        # (the grid may be handed over as a strided view: its memory layout is not part of its value)
+        xx_in = np.repeat(xx, 2)[::2] if ci % 4 == 3 else xx
         if not rec.case("one%d-%d" % (nd, ci), desc, nontrivial=nontriv):
             continue
         tags = {"nd": nd, "asfunc": asfunc, "delj": delj}
@@ -287,7 +308,7 @@ def run_onestep(spec, rec, Integration, Numerics):
         old = Integration.use_delj_trick
         Integration.use_delj_trick = delj
         try:
-            ok, out = rec.noraise("driver-returns", lambda: f(phi0.copy(), xx, T, **kw2), site=site, tags=tags)
+            ok, out = rec.noraise("driver-returns", lambda: f(phi0.copy(), xx_in, T, **kw2), site=site, tags=tags)
         finally:
             Integration.use_delj_trick = old
         if not ok:
@@ -323,7 +344,7 @@ def run_onestep(spec, rec, Integration, Numerics):
             per_end.append((end[nus_[i]], ms_e, end[gn_[i]], end[hn_[i]]))
         Integration.use_delj_trick = False
         try:
-            okv, outv = rec.noraise("driver-returns", lambda: f(phi0.copy(), xx, T, **kw3), site=site, tags=dict(tags, timevar=True))
+            okv, outv = rec.noraise("driver-returns", lambda: f(phi0.copy(), xx_in, T, **kw3), site=site, tags=dict(tags, timevar=True))
         finally:
             Integration.use_delj_trick = old
         if okv:
